@@ -7,18 +7,63 @@ HERE = os.path.dirname(os.path.dirname(os.path.abspath(__file__)))
 
 # id -> (level category, technique, level text, level note, design ref)
 CHECKS = {
+ "C01": ("exploration", "PBT over generated voices x labels x conditions with differential oracles (public-API frame count, harness-side rendering of hook trajectories, stable-range predicate)",
+         "Thousands of generated (voice file, label sequence, condition, alignment) cases per run over the whole quantifier incl. 2/3-stream, MCP/LSP, 1..7 states, all window sets, bundled and perturbed voices, structurally random labels: totality, exact length, per-state floor, finiteness w.r.t. the stable-range predicate, and two wiring differentials. Sampling, not proof.",
+         "Frame count oracle uses jbonsai's public DurationEstimator/Models (decided separately by C04/C08/C09); stable range evaluated on a 129-point grid.", "4/C01"),
+ "C02": ("exploration", "model-based PBT of call histories (reference model: one-shot waveform + cursor) plus exhaustive enumeration of all histories up to a bounded length on 0..4-frame generators",
+         "Random histories on engine-built generators (all voice kinds) and the complete set of histories over {Step(fp), Step(2fp+1), Step(3fp), Frames, Finish} up to length 4 (quick) / 6 (thorough) on 40 short generators; bitwise comparison with one-shot synthesis.",
+         "Exhaustive only for the enumerated sub-space (reported per sub-check); long utterances are sampled.", "4/C02"),
+ "C03": ("exploration", "PBT with real threads on one shared engine (barrier + generated stagger), sequential reference, setter-history metamorphic relation, compile-time Send/Sync probe",
+         "Hundreds of cases x 2..16 concurrent jobs per run compared bitwise with a sequential reference; repeat / clone / interleaved live generator; getters unchanged; two setter histories ending in the same values. Detects shared hidden state with high probability; cannot enumerate interleavings.",
+         "The OS owns the schedule: a narrow race window can be missed and a failing schedule is not replayable (stated in DESIGN.md).", "4/C03"),
  "C04": ("exploration", "differential PBT: loaded voice vs independent .htsvoice reader + glob tree walk, generated voice files (round-trip through own writer)",
          "Thousands of generated labels against all 18 trees of the bundled voice and thousands of generated voice files (all header/tree/PDF shapes of the quantifier) compared bit-for-bit with an independent reader and, for generated files, with the written spec. Sampling, not proof: question semantics are only exercised on the corpus-derived label domain.",
          "Trusts the harness's own reader/glob matcher (cross-validated against the written VoiceSpec) and jlabel's Display as 'the label text'.", "4/C04"),
  "C05": ("exploration", "differential PBT: banded LDL solution vs dense Gaussian-elimination solve of the normal equations built from the definition",
          "Generated streams over the whole quantifier (states, durations, vector lengths, window sets incl. width 5, voicing patterns incl. islands and all-unvoiced) compared with an independent dense solve at relative 1e-9.",
          "Trusts the harness's construction of W and U^-1 from the property text; GV off; variances within [0.05,3].", "4/C05"),
+ "C06": ("exploration", "PBT with a physical oracle: DFT of the pulse response measured through the public Vocoder vs the closed-form model spectrum",
+         "Generated cepstra (orders 2..40, alpha, 6 sampling rates, shapes up to 2 nepers) checked on 65/257 frequencies against sum c_m cos(m w~) at the property's own 0.01-neper bound (measured worst 3e-4).",
+         "Cases whose reference response does not decay inside the measured window are rejected (counted).", "4/C06"),
+ "C07": ("exploration", "PBT with closed-form pulse-train law, statistical noise test and an exact metamorphic relation for mixed excitation",
+         "Generated F0 tracks (constant, steps, glides, V/UV switches, values outside the limits) through the public Vocoder with an identity filter: pulse heights, gaps, restart behaviour, mean power; 48k-sample noise statistics; A = C + h*(B-C) to 1e-12 for random low-pass filters of every odd order up to 31.",
+         "Gap bounds are only asserted while all glides since the last restart are slower than 0.5 samples/sample (the property does not define the burst after a fast glide).", "4/C07"),
  "C08": ("exploration", "PBT against the closed-form speed law + engine-level wiring check",
          "Tens of thousands of generated duration models x speeds checked against the exact law (round, floor, monotonicity), plus bundled-voice utterances through Engine at generated speeds.",
          "Half-way ties within 1e-9 accept either neighbour; the engine layer takes the duration Gaussians from the public Models API.", "4/C08"),
  "C09": ("exploration", "PBT against the alignment law (cumulative-frame oracle + reference duration fit), label-time conversion oracle, engine-level wiring",
          "Generated time annotations (known/unknown subsets, non-monotone, zero-length, exact .5 frames, up to minutes) on generated duration models, generated label text with times, and engines with rate/frame-period overrides.",
          "Distribution inside a group is compared with a reference of the HTS fitting rule only when no tie (margin 1e-9) makes it ambiguous.", "4/C09"),
+ "C10": ("exploration", "PBT against the weighted-sum oracle built from per-voice public lookups; metamorphic vertex/identical-voice relations",
+         "1..4 compatible voices (bundled + perturbed copies, generated + same-metadata variants), independent dyadic weight vectors incl. negative/over-unity for duration, every stream and every GV; every Gaussian compared at 1e-12.",
+         "Per-voice tree selection is trusted here (decided by C04).", "4/C10"),
+ "C11": ("exploration", "PBT on hook trajectories against the per-state voicing rule (public Models API) with monotonicity and independence metamorphic relations",
+         "Generated engines/utterances/conditions incl. thresholds exactly equal to a state's voicing weight; per-frame voiced <=> weight > threshold, monotone in the threshold, other streams bitwise untouched.",
+         "Uses the verif-hooks accessor; frame->state mapping from the public duration estimator.", "4/C11"),
+ "C12": ("exploration", "PBT with a statistical oracle (variance ratio over GV-eligible frames) and exact differential for the no-eligible-frame case",
+         "Hundreds of 10..60-label utterances x 3 GV weights on the bundled voice and perturbed copies: per-coefficient variance within 20 % of weight x GV mean (measured 6 %), monotone in the weight; silence-only utterances equal the plain ML solution bitwise; non-GV stream untouched.",
+         "Eligibility computed with the harness's own glob matcher on the label text.", "4/C12"),
+ "C13": ("exploration", "PBT with a physical oracle: measured pulse response vs minimum-phase impulse response of K/A(z~)^s computed independently (polynomial LSP->LPC, homomorphic IR)",
+         "Generated LSP sets (orders 2..24 even/odd, stages 1..4, alpha, linear/log gain, minimal spacing) compared in the time domain (1e-6 of the peak) and in log-magnitude (0.001 neper within 100 dB of the peak).",
+         "Truncation of the finite measurement window is cancelled by truncating the reference identically.", "4/C13"),
+ "C14": ("exploration", "PBT, metamorphic: pulse responses with and without the postfilter vs the closed-form (1+beta) law and energy equality",
+         "Generated cepstra x beta: spectral relation constant within 0.005 neper, energy within 1 %, bitwise no-op for beta = 0 and length 2.",
+         "Measured in frame 2 (stationary coefficients); cases outside the Pade-accurate range are rejected (counted).", "4/C14"),
+ "C15": ("exploration", "PBT, metamorphic relation against h = 0 on hook trajectories + direct check of the public clamp",
+         "Generated engines/utterances/conditions x h in [-24,24]: durations, voicing, spectrum and low-pass trajectories bitwise invariant; voiced log-F0 shifted by h ln2/12 within 1e-8 unless a voiced state reaches the clamp.",
+         "Uses the verif-hooks accessor.", "4/C15"),
+ "C16": ("exploration", "PBT, metamorphic relation against 0 dB",
+         "Generated engines (MLSA and LSP) x v in [-60,60]: sample-wise gain 10^(v/20) at 1e-12, trajectories untouched, getter round-trip 1e-9.",
+         "Non-finite samples (runaway filters) must be non-finite in both runs.", "4/C16"),
+ "C17": ("exploration", "PBT: all input forms compared bitwise; grammar-aware corruption of label text with an Ok/LabelError-only oracle",
+         "Every ToLabels form incl. const-size arrays of 6 sizes, blank lines and time stamps; thousands of corrupted lines per run (12 operators) must yield Ok or a label error, never a panic.",
+         "With alignment on only finite times below 10 minutes are in the domain.", "4/C17"),
+ "C18": ("fault_enumeration", "deterministic single-fault grid + generated single/double/triple faults on valid voice files, process-isolated, with counting allocator and hang monitor",
+         "Complete grid (every header number x 11 replacements, every header line deleted/duplicated, every boundary truncation) on the bundled voice and 20 generated voices, plus thousands of generated multi-faults incl. tree/question edits and byte flips; oracle: Ok or Err, no panic, bounded heap, termination. An abort or hang of the loader is attributed by re-running the in-flight case in a fresh process.",
+         "Built with overflow checks (arithmetic overflow counts as a panic). One known finding lives in the dependency jlabel-question (listed in known_findings.json).", "4/C18"),
+ "C19": ("exploration", "PBT: one-field metadata variants of generated voice files; model-based histories of weight updates (reference model = last accepted vector per slot)",
+         "Every metadata field of the statement varied in isolation on complete loadable voice files at every position of 2..3 voices; histories of valid/invalid updates (wrong length, sum off, NaN, inf) with getter and waveform comparison against a fresh engine.",
+         "Sums off by less than 1e-6 are not generated (left open by the property).", "4/C19"),
  "C20": ("exploration", "model-based PBT (proptest): random setter histories vs reference model of the documented clamps",
          "Generated setter-call histories (thousands per run, arguments biased to bounds/subnormals/huge values) compared after every call with an explicit reference model; shows absence of clamp/round-trip errors on the explored histories, not for all f64.",
          "Trusts the doc comments of the setters as the specification of the ranges; finite arguments only.", "4/C20"),
